@@ -174,8 +174,41 @@ def student_text(form, X, P):
 ID_ANS = {'form': 'id', 'sp': 'lit'}
 
 
+_SCRIPTED_FUNCTIONS = None
+
+
+def scripted_functions_class():
+    """Author-defined FunctionSamplingSet: hands out a different function object at every sample, f_i(t) = v_i * t for
+    the scripted values v_i (cyclically), and records the values behind the functions it handed out."""
+    global _SCRIPTED_FUNCTIONS
+    if _SCRIPTED_FUNCTIONS is None:
+        from voluptuous import Schema, Required
+        from mitxgraders.sampling import FunctionSamplingSet
+
+        class ScriptedFunctions(FunctionSamplingSet):
+            schema_config = Schema({Required('script'): list})
+
+            def __init__(self, config=None, **kwargs):
+                super(ScriptedFunctions, self).__init__(config, **kwargs)
+                self.draws = []
+
+            def gen_sample(self):
+                v = self.config['script'][len(self.draws) % len(self.config['script'])]
+                self.draws.append(v)
+                return lambda t, v=v: v * t
+        _SCRIPTED_FUNCTIONS = ScriptedFunctions
+    return _SCRIPTED_FUNCTIONS
+
+
+def carrier_text(ans):
+    """how the formulas refer to the sampled value: the variable x, or f(1) for a per-sample-drawn function f"""
+    return 'f(1)' if ans['form'] == 'idf' else 'x'
+
+
 def answer_text(ans, X='x'):
-    """the author's answer: the variable itself, or a constant expression that does not mention it"""
+    """the author's answer: the variable itself, f(1) for a sampled function, or a constant expression"""
+    if ans['form'] == 'idf':
+        return 'f(1)'
     if ans['form'] == 'id':
         return X
     lit = lit_value(ans['k'])
@@ -219,14 +252,21 @@ def configured_grader(c, with_d):
            tuple(c['credit']), c['part'] == 'inf', with_d, answer)
     hit = _GRADERS.get(key)
     if hit is None:
-        sx = ScriptedSampler(script=[1.0])
-        variables, sample_from, sd = ['x'], {'x': sx}, None
+        by_function = c.get('ans', ID_ANS)['form'] == 'idf'
+        if by_function:
+            sx = scripted_functions_class()(script=[1.0])
+            variables, sample_from, sd = [], {}, None
+        else:
+            sx = ScriptedSampler(script=[1.0])
+            variables, sample_from, sd = ['x'], {'x': sx}, None
         if with_d:
             sd = ScriptedSampler(script=[1.0])
             variables.append('d')
             sample_from['d'] = sd
         cfg = dict(tolerance=tol_py(c['tol']), answers={'expect': answer, 'grade_decimal': credit_py(c['credit'])},
                    variables=variables, sample_from=sample_from, samples=c['n'], failable_evals=c['failable'])
+        if by_function:
+            cfg['user_functions'] = {'f': sx}
         if c['grader'] == 'M':
             cfg['max_array_dim'] = 2
             g = MatrixGrader(**cfg)
@@ -270,7 +310,7 @@ def run_form_case(c):
             P = 'd'
         else:
             P = lit_value(par[0])
-        student = student_text(form, 'x', P)
+        student = student_text(form, carrier_text(c.get('ans', ID_ANS)), P)
     try:
         res = g(None, student)
         obs = classify(res, credit)
@@ -513,6 +553,8 @@ def violation_class(c, allowed, observed, margins=None):
     kind = 'percentage' if c['tol']['kind'] == 'pct' else 'absolute'
     if c.get('ans', ID_ANS)['form'] == 'const':
         kind = 'constant-answer-' + kind
+    if c.get('ans', ID_ANS)['form'] == 'idf':
+        kind = 'sampled-function-' + kind
     if c['part'] == 'inf' or any(v.get('inf') for v in c.get('xs', [])):
         return 'infinity-comparison'
     if margins and 'edge' in margins or margins and 'edge0' in margins:
@@ -680,6 +722,8 @@ def rand_verdict_case(rng, i):
            'ans': id_ans(),
            'failable': failable, 'credit': rq(credit), 'xs': [val(shape, e) for e in xs], 'form': form,
            'par': [val(pshape, p) for p in par]}
+    if grader != 'N' and rng.random() < 0.15:      # the sampled value is carried by a per-sample-drawn function
+        rec['ans']['form'] = 'idf'
     return rec
 
 
@@ -1034,7 +1078,11 @@ def replay(ctx, rec):
             ys = [_parse_literal(b) for _, b in sig['samples_xy']]
             cfg.update(variables=['x', 'y'], sample_from={'x': ScriptedSampler(script=xs), 'y': ScriptedSampler(script=ys)})
         elif 'sampled' in sig:
-            cfg.update(variables=['x'], sample_from={'x': ScriptedSampler(script=[_parse_literal(t) for t in sig['sampled']])})
+            script = [_parse_literal(t) for t in sig['sampled']]
+            if sig['answer'] == 'f(1)':
+                cfg.update(variables=[], sample_from={}, user_functions={'f': scripted_functions_class()(script=script)})
+            else:
+                cfg.update(variables=['x'], sample_from={'x': ScriptedSampler(script=script)})
             if sig.get('form') == 'addvar':
                 cfg['variables'].append('d')
                 cfg['sample_from']['d'] = ScriptedSampler(script=[_parse_literal(t) for t in sig['params']])
